@@ -232,6 +232,14 @@ def _impl_op(case):
         from sparse.numba_backend._compressed.convert import uncompress_dimension
         return {"rows": [[int(v) for v in r.indptr], [int(v) for v in uncompress_dimension(r.indptr)]],
                 "dt": str(r.indptr.dtype), "ptrs": ptrs, "shape": list(r.shape)}
+    if k == "canon":
+        # user-supplied coordinates in arbitrary order, with repeats: the constructor must sort and sum them
+        n = len(case["coords"])
+        nd = len(case["shape"])
+        c = np.array(case["coords"], dtype=np.int64).reshape(n, nd).T.astype(t)
+        r = sparse.COO(c, np.arange(1, n + 1, dtype=np.int64), shape=tuple(case["shape"]))
+        lin = np.ravel_multi_index(tuple(np.asarray(r.coords).astype(np.int64)), tuple(case["shape"])) if nd else []
+        return {"pairs": [[int(a), int(b)] for a, b in zip(lin, r.data, strict=True)], "dt": str(r.coords.dtype)}
     if k == "gtrans":
         # multi-step: join narrow-index GCXS members (indices stay narrow, nnz grows), then re-compress
         gs = [sparse.GCXS.from_coo(_coo(shape, coords, t), compressed_axes=(0,)) for (shape, coords) in case["ops"]]
@@ -298,6 +306,48 @@ def impl_prim(case):
         return {"rows": [[int(v) for v in r]], "dt": str(r.dtype)}
     except Exception as ex:  # noqa: BLE001
         return _exc(ex)
+
+
+# ---- index ARRAYS of narrow integer dtypes (fancy indexing): the result must not depend on the array's dtype
+def impl_idxarr(case):
+    import warnings
+
+    import numpy as np
+    import sparse
+    warnings.filterwarnings("ignore")
+    n, dt, idx, fmt = case["n"], case["dt"], case["idx"], case["fmt"]
+    d = np.arange(1, n + 1)
+    x = sparse.COO.from_numpy(d)
+    if fmt == "gcxs":
+        x = x.asformat("gcxs")
+    elif fmt == "dok":
+        x = x.asformat("dok")
+    ia = np.array(idx, dtype=dt)
+    want = [int(v) for v in d[ia]]
+    try:
+        got = [int(v) for v in x[ia].todense()]
+        return {"want": want, "got": got}
+    except Exception as ex:  # noqa: BLE001
+        return {"want": want, "exc": type(ex).__name__, "msg": str(ex)[:120]}
+
+
+def impl_idxarr_batch(batch):
+    return [impl_idxarr(c) for c in batch["items"]]
+
+
+def gen_idxarr_cases(tier, rng):
+    cases = []
+    for n in [100, 127, 128, 200, 255, 256, 300] + ([32767, 32768, 40000, 65535, 65536, 70000] if tier != "quick" else [40000]):
+        for dt in TYPES:
+            hi = min(thi(dt), n - 1)
+            idxs = [[0, hi // 2, hi], [1, 1, 0]]
+            if not dt.startswith("u"):
+                lo = max(tlo(dt), -n)
+                idxs += [[-1, -2], [lo, -1, 0, hi]]
+            for idx in idxs:
+                for fmt in (("coo", "gcxs", "dok") if tier != "quick" else ("coo", rng.choice(["gcxs", "dok"]))):
+                    cases.append(dict(n=n, dt=dt, idx=idx, fmt=fmt))
+    return cases
 
 
 # ---- differential stream
@@ -370,6 +420,29 @@ def _diff_calls():
         "gcxs_dot": lambda x: sparse.dot(gcxs(x), gcxs(x).T) if x.ndim == 2 else sparse.dot(gcxs(x), gcxs(x)),
     }
 
+    # consumers that rely on the canonical (sorted, duplicate-free) order, after producers that hand unordered /
+    # repeated coordinates to the constructor: user coordinates (how="unsorted"), flip, einsum
+    def stored(x):
+        return sorted({int(v) for v in x.coords[0]})
+    calls.update({
+        "us_nnz": lambda x: np.array([x.nnz]),
+        "us_coords": lambda x: x,
+        "us_getitem_first": lambda x: x[stored(x)[0]],
+        "us_getitem_last": lambda x: x[stored(x)[-1]],
+        "us_getitem_fancy": lambda x: x[stored(x)],
+        "us_slice": lambda x: x[stored(x)[0]:stored(x)[-1] + 1:2],
+        "us_reshape_index": lambda x: x.reshape((1,) + x.shape)[0, stored(x)[-1]] if x.ndim == 1 else x.reshape((-1,))[-1],
+        "us_sum": lambda x: x.sum(axis=0),
+        "flip_getitem": lambda x: sparse.flip(x, axis=0)[x.shape[0] - 1 - stored(x)[-1]],
+        "flip_fancy": lambda x: sparse.flip(x, axis=0)[[x.shape[0] - 1 - v for v in stored(x)]],
+        "flip_slice": lambda x: sparse.flip(x, axis=0)[1::2],
+        "einsum_ji_i": lambda x: sparse.einsum("ji->i", x) if x.ndim == 2 else sparse.einsum("i->i", x),
+        "einsum_ji_i_fancy": lambda x: (sparse.einsum("ji->i", x) if x.ndim == 2 else sparse.einsum("i->i", x))[
+            sorted({int(v) for v in x.coords[-1]})],
+        "einsum_ji_i_item": lambda x: (sparse.einsum("ji->i", x) if x.ndim == 2 else sparse.einsum("i->i", x))[
+            int(x.coords[-1].max()) if x.nnz else 0],
+    })
+
     # multi-step sequences (how="member3d"): x is one member; k copies are joined so that the number of stored
     # elements crosses the limit of the index type while every extent stays small, THEN the result is
     # re-compressed / transposed / reshaped / reduced (convert._transpose, _1d_reshape)
@@ -423,6 +496,10 @@ def impl_diff(case):
                     d = np.arange(1, int(np.prod(shape)) + 1).reshape(shape) % 251 + 1
                     x0 = sparse.COO.from_numpy(d)
                     x = sparse.COO(x0.coords.astype(tt), x0.data, shape=x0.shape, sorted=True, has_duplicates=False)
+                elif how == "unsorted":
+                    n = len(coords)
+                    c = np.array(coords, dtype=np.int64).reshape(n, len(shape)).T.astype(tt)
+                    x = sparse.COO(c, np.arange(1, n + 1, dtype=np.int64), shape=tuple(shape))   # sorts + sums duplicates
                 elif how == "member3d":
                     rs = np.random.default_rng(42)
                     d = rs.integers(1, 10, size=tuple(shape))
@@ -576,6 +653,20 @@ def gen_op_cases(tier, rng):
                 lin = sorted(rng.sample(range(rows * cols), nn))
                 ops.append(([rows, cols], [[l // cols, l % cols] for l in lin]))
             cases.append(dict(kind="gjoin", t=t, ops=ops, how="concat"))
+        # ---- constructor canonicalisation: coordinates given out of order / repeated (1-d and 2-d)
+        for _ in range(6 * reps):
+            n = rng.choice(exts)
+            pts = pick_coords(rng, n, 5)
+            cs = [rng.choice(pts) for _ in range(rng.choice([2, 4, 7]))]
+            rng.shuffle(cs)
+            if rng.random() < 0.5:
+                cs = sorted(cs, reverse=True)
+            cases.append(dict(kind="canon", t=t, shape=[n], coords=[[c] for c in cs]))
+        for _ in range(2 * reps):
+            n, m = rng.choice(exts), rng.choice([2, 3])
+            pts = [[r, c] for r in range(m) for c in pick_coords(rng, n, 3)]
+            cs = [rng.choice(pts) for _ in range(6)]
+            cases.append(dict(kind="canon", t=t, shape=[m, n], coords=cs))
         # ---- multi-step: members whose total nnz crosses the limit of t while every extent stays small, then
         #      change_compressed_axes (convert._transpose)
         lim = min(thi(t), 255)
@@ -641,7 +732,7 @@ def gen_prim_cases(tier, rng):
 
 # calls whose cost is dominated by compiling Numba kernels for the index dtype: in the quick tier they run for the
 # narrowest signed / unsigned types, one 16-bit type and uint64 only (all eight types in the thorough tier)
-JIT_HEAVY = {"ms_join_dense", "ms_join_ca1_dense", "ms_join_ca1_sum", "ms_join_cca2", "ms_join_cca2_tocoo", "ms_join_T",
+JIT_HEAVY = {"einsum_ji_i", "einsum_ji_i_fancy", "einsum_ji_i_item", "flip_fancy", "ms_join_dense", "ms_join_ca1_dense", "ms_join_ca1_sum", "ms_join_cca2", "ms_join_cca2_tocoo", "ms_join_T",
              "ms_join_T_dense", "ms_join_reshape_sum", "ms_join_flat", "ms_stack_cca", "ms_join_sum0", "ms_join_max12",
              "gcxs_fancy_rep", "sort", "dot", "gcxs_dot", "getitem_fancy", "getitem_last", "getitem_int", "gcxs_getitem", "gcxs_getitem_neg",
              "gcxs_stack", "gcxs_reshape", "gcxs_concat", "gcxs_concat_dense", "to_gcxs_back", "gcxs_T", "gcxs_sum0",
@@ -652,7 +743,27 @@ QUICK_HEAVY_TYPES = {"int8", "uint8", "uint16", "uint64"}
 def gen_diff_items(tier, rng):
     items = []
     allnames = list(_diff_calls().keys())
-    names = [n for n in allnames if not n.startswith("ms_")]
+    names = [n for n in allnames if not n.startswith(("ms_", "us_"))]
+    # GCXS fancy indexing that repeats rows, narrow signed index types (finding gcxs_fancy_getitem_indptr_dtype)
+    for t in ("int8", "int16"):
+        n = 127 if t == "int8" else 32767
+        items.append(("gcxs_fancy_rep", [n, 6], [[0, 0], [0, 3], [0, 5], [n // 2, 0], [n - 1, 5]], t, "coords"))
+    # user coordinates out of order / repeated, every index type (cheap: no dtype-specific kernels beyond getitem)
+    usnames = [n for n in allnames if n.startswith("us_")]
+    for t in TYPES:
+        hi = thi(t)
+        for n in [x for x in (7, 100, 127, 200, 255, 300, 40000, 70000) if x <= hi][:5 if tier == "quick" else 8]:
+            for _rep in range(1 if tier == "quick" else 2):
+                pts = pick_coords(rng, n, 6)
+                cs = [rng.choice(pts) for _ in range(rng.choice([3, 6, 9]))]
+                if rng.random() < 0.4:
+                    cs = sorted(set(cs), reverse=True)
+                for name in usnames:
+                    items.append((name, [n], [[c] for c in cs], t, "unsorted"))
+        m, n = 3, min(hi, 200)
+        cs2 = [[rng.randrange(m), rng.choice(pick_coords(rng, n, 4))] for _ in range(7)]
+        for name in usnames:
+            items.append((name, [m, n], cs2, t, "unsorted"))
     # multi-step stream: member shape and density per index width (3 members are joined):
     #   8-bit  (8,7,6) = 336 cells: int8 30% (~100 <= 127, 3x > 127), uint8 50% (~168 <= 255, 3x > 255)
     #   16-bit (8,70,60) = 33600 cells at 90% (~30240 <= 32767, 3x > 65535)
@@ -765,6 +876,11 @@ def op_literal(case, res):
         oc = f"(CGcxsJoin [{'; '.join(ptrs)}])"
     elif k == "uncompress":
         oc = f"(CUncompress {zl(case['indptr'])})"
+    elif k == "canon":
+        sh = case["shape"]
+        lin = [c[0] if len(sh) == 1 else c[0] * sh[1] + c[1] for c in case["coords"]]
+        ps = [vpair(vZ(l), vZ(i + 1)) for i, l in enumerate(lin)]
+        oc = f"(CCanon {len(sh)} [{'; '.join(ps)}])"
     elif k == "gtrans":
         if "xdt" not in res:
             return None
@@ -915,7 +1031,7 @@ def campaign(build, tier, seed, report, budget=1):
     tag_hist = {}
     names = {1: "concat", 2: "flip", 3: "roll", 4: "roll_tuple", 5: "getitem", 6: "reshape", 7: "reduce", 8: "triu_tril",
              9: "kron", 10: "pad", 11: "stack", 12: "ctor_idx_dtype", 13: "gcxs_from_coo", 14: "gcxs_join", 15: "uncompress",
-             16: "gcxs_join_then_transpose"}
+             16: "gcxs_join_then_transpose", 17: "ctor_canonicalisation"}
     sub = {0: "equal", 1: "guard_ValueError", 2: "outside_domain"}
     assert len(tagged) == len(olits), (len(tagged), len(olits))
     for _j, v in tagged:
@@ -937,7 +1053,6 @@ def campaign(build, tier, seed, report, budget=1):
                     batches.append({"items": part})
     dres = vlib.run_impl("props.c15", "impl_diff", batches, workers=6, per_case_timeout=400.0)
     lap("diff_impl")
-    report["notes"].append(f"timing (s): {timing}")
     d_total = d_same = d_valueerr = d_bothexc = 0
     for b, rs in zip(batches, dres, strict=True):
         if not isinstance(rs, list):
@@ -962,7 +1077,29 @@ def campaign(build, tier, seed, report, budget=1):
                          "replay_py": "import sys; sys.path.insert(0, '/verif/tools'); from props import c15; "
                                       f"print(c15.impl_diff({{'items': [({name!r}, {shape!r}, {coords!r}, {t!r}, {how!r})]}}))"})
 
-    cov["evaluations"] = len(pcases) + len(ocases) + d_total
+    # ---- stream idxarr: fancy indexing with index arrays of every integer dtype, against NumPy
+    icases = gen_idxarr_cases(tier, rng)
+    ib = [icases[k::6] for k in range(6)]
+    ibres = vlib.run_impl("props.c15", "impl_idxarr_batch", [{"items": b} for b in ib], workers=6, per_case_timeout=300.0)
+    ires = [None] * len(icases)
+    for k, rs in enumerate(ibres):
+        for j, r in enumerate(rs if isinstance(rs, list) else [dict(rs)] * len(ib[k])):
+            ires[k + 6 * j] = r
+    i_bad = 0
+    for c, r in zip(icases, ires, strict=True):
+        if r.get("got") == r.get("want") and "want" in r:
+            continue
+        i_bad += 1
+        clause = None
+        if r.get("exc") == "OverflowError" and "out of bounds for" in r.get("msg", "") and c["n"] > thi(c["dt"]):
+            clause = "index_array_dtype_posify_overflow"
+        viol.append({"property": "C15", "op": "fancy_index_array:" + c["fmt"], "kind": "value", "clause": clause,
+                     "case": c, "impl": r,
+                     "replay_py": "import sys; sys.path.insert(0, '/verif/tools'); from props import c15; "
+                                  f"print(c15.impl_idxarr({c!r}))"})
+    lap("idxarr")
+    report["notes"].append(f"timing (s): {timing}")
+    cov["evaluations"] = len(pcases) + len(ocases) + d_total + len(icases)
     cov["distinct_nontrivial"] = len({json.dumps(c, sort_keys=True, default=str) for c in ocases}) + \
         len({json.dumps(c, sort_keys=True) for c in pcases}) + len({json.dumps(i) for i in items})
     cov["rule"] = ("prim: NumPy rules on the eight index types with operands at each type's limits; op: every modelled "
@@ -971,7 +1108,7 @@ def campaign(build, tier, seed, report, budget=1):
                    "unbounded reference; diff: API calls on typed vs intp coordinates (differential only)")
     cov["streams"] = {"prim": len(pcases), "prim_float_inexact_skipped": inexact, "op": len(ocases), "op_judged": len(olits),
                       "diff": d_total, "diff_identical": d_same, "diff_allowed_ValueError": d_valueerr,
-                      "diff_both_raise_same": d_bothexc}
+                      "diff_both_raise_same": d_bothexc, "idxarr": len(icases), "idxarr_differs_from_numpy": i_bad}
     cov["multi_step"] = ("op: join of narrow-index GCXS members (total nnz just below/at/above the 8-bit limits, extents "
                          "small) followed by change_compressed_axes, judged against Model m_transpose; diff: 3 members joined "
                          "(nnz crossing 127/255/32767/65535) then todense / re-compress / transpose / reshape / reductions")
